@@ -11,7 +11,15 @@ State components are those of the struct (`outbound`, `pending_outbound`, `pendi
 `pending_dials`, `inbound`; hash maps are association lists keyed by peer / substream number) plus the
 environment the harness plays: the connections `TransportService` knows, the transport manager's view
 of every peer (decides what `dial` answers), the far end of every outbound substream (how many more
-frames it accepts before a write fails) and the unanswered `OpenSubstream` commands.
+frames it accepts before a write fails, and how much time it takes to accept each) and the unanswered
+`OpenSubstream` commands.
+
+Time: every `substream.send_framed(message)` of `send_request` / `send_response` is wrapped in its own
+`tokio::time::timeout(WRITE_TIMEOUT, ..)`; nothing bounds a whole call, a whole queue flush or an
+iteration of the event loop. The far end of a substream therefore carries the (virtual) time it takes to
+accept each successive frame (`Far.delays`); a frame that takes longer than `Limits.writeTimeout` fails
+the call with `Error::Timeout`, frames that are each within it are all written, however long they take
+together.
 
 Imports only other model files (core Lean only).
 -/
@@ -68,12 +76,14 @@ def presSized : PSized Pres := ⟨Pres.clen, Pres.ty⟩
 abbrev REntry := Entry Pres Blk
 abbrev RFrame := Frame Pres Blk
 
-/-- `config::{MAX_BATCH_SIZE, MAX_BATCH_BLOCKS, MAX_MESSAGE_SIZE}` and the codec's frame limit. -/
+/-- `config::{MAX_BATCH_SIZE, MAX_BATCH_BLOCKS, MAX_MESSAGE_SIZE}`, the codec's frame limit and
+`WRITE_TIMEOUT` (milliseconds). -/
 structure Limits where
   maxBatch : Nat
   cap : Nat
   maxMsg : Nat
   codecMax : Nat
+  writeTimeout : Nat
 
 /-- `wantlist::Entry { block = 1, priority = 2 (always 1), cancel = 3, wantType = 4, sendDontHave = 5 }`
 as one `entries = 1` item of `Wantlist`. -/
@@ -109,24 +119,65 @@ def actionFrames (L : Limits) : Action → List WFrame × Bool
 
 /-! ## the far end of an outbound substream -/
 
-/-- `budget`: complete frames still accepted before a write fails (`none`: all); `off`: bytes of the
-failing frame that are still taken (observed as a partial frame); `gone`: the protocol dropped it. -/
+/-! ### time: how long the far end takes to accept a frame -/
+
+/-- The time (ms) the next frame takes: the head of the list; the last entry repeats; `[]`: no time. -/
+def delayHead : List Nat → Nat
+  | [] => 0
+  | d :: _ => d
+
+def delayTail : List Nat → List Nat
+  | [] => []
+  | [d] => [d]
+  | _ :: t => t
+
+/-- the delays that remain after `n` frames -/
+def delaysAfter : Nat → List Nat → List Nat
+  | 0, ds => ds
+  | n + 1, ds => delaysAfter n (delayTail ds)
+
+/-- `timeout(WRITE_TIMEOUT, substream.send_framed(..))`, frame after frame: how many of `n` frames are
+accepted in time. Each frame has its own budget `wt`; nothing adds the times up. -/
+def timely (wt : Nat) : List Nat → Nat → Nat
+  | _, 0 => 0
+  | ds, n + 1 => if delayHead ds ≤ wt then timely wt (delayTail ds) n + 1 else 0
+
+/-- the time the first `n` frames take together -/
+def elapsedOf : List Nat → Nat → Nat
+  | _, 0 => 0
+  | ds, n + 1 => delayHead ds + elapsedOf (delayTail ds) n
+
+/-- `budget`: complete frames still accepted before a write fails or stalls (`none`: all); `off`: bytes
+of the failing frame that are still taken (observed as a partial frame); `gone`: the protocol dropped
+it; `delays`: the time the far end takes before it accepts each further frame. -/
 structure Far where
   budget : Option Nat
   off : Nat
   gone : Bool
+  delays : List Nat
   deriving DecidableEq, Repr
 
-/-- Writing `n` frames: how many are accepted and whether all were. -/
-def Far.take (f : Far) (n : Nat) : Nat × Bool :=
+/-- Writing `n` frames: how many are accepted and whether all were. A frame is refused when the budget
+is used up, and times out when it takes longer than `wt`. -/
+def Far.take (wt : Nat) (f : Far) (n : Nat) : Nat × Bool :=
   match f.budget with
-  | none => (n, true)
-  | some k => if n ≤ k then (n, true) else (k, false)
+  | none => (timely wt f.delays n, timely wt f.delays n == n)
+  | some k =>
+    if n ≤ k then (timely wt f.delays n, timely wt f.delays n == n)
+    else (min k (timely wt f.delays n), false)
 
-def Far.after (f : Far) (n : Nat) : Far :=
+/-- Bytes of the refused frame that were still taken: only when the budget (not the clock) ended the call. -/
+def Far.partialOf (wt : Nat) (f : Far) (n : Nat) : Nat :=
   match f.budget with
-  | none => f
-  | some k => if n ≤ k then { f with budget := some (k - n) } else { f with budget := some 0 }
+  | none => 0
+  | some k => if k < n ∧ k ≤ timely wt f.delays n then f.off else 0
+
+def Far.after (wt : Nat) (f : Far) (n : Nat) : Far :=
+  match f.budget with
+  | none => { f with delays := delaysAfter (f.take wt n).1 f.delays }
+  | some k =>
+    if n ≤ k then { f with budget := some (k - n), delays := delaysAfter (f.take wt n).1 f.delays }
+    else { f with budget := some 0, delays := delaysAfter (f.take wt n).1 f.delays }
 
 /-- One call of `send_request` / `send_response` on a substream. -/
 structure Attempt where
@@ -137,15 +188,19 @@ structure Attempt where
   /-- bytes of a further, incomplete frame -/
   partialBytes : Nat
   ok : Bool
+  /-- virtual time until the last of the written frames was accepted -/
+  elapsed : Nat
   deriving DecidableEq, Repr
 
 /-- `send_*(substream, …)` against the far end `f` of substream `s`: the frames are written in order
-until one is refused; the call returns `Ok` iff none was (and the codec accepted all). -/
+until one is refused or takes longer than `WRITE_TIMEOUT`; the call returns `Ok` iff none was (and the
+codec accepted all). -/
 def attempt (L : Limits) (s : Nat) (f : Far) (a : Action) : Attempt × Far :=
-  (⟨s, a, (actionFrames L a).1.take (f.take (actionFrames L a).1.length).1,
-     if (f.take (actionFrames L a).1.length).2 then 0 else f.off,
-     (f.take (actionFrames L a).1.length).2 && (actionFrames L a).2⟩,
-   f.after (actionFrames L a).1.length)
+  (⟨s, a, (actionFrames L a).1.take (f.take L.writeTimeout (actionFrames L a).1.length).1,
+     f.partialOf L.writeTimeout (actionFrames L a).1.length,
+     (f.take L.writeTimeout (actionFrames L a).1.length).2 && (actionFrames L a).2,
+     elapsedOf f.delays (f.take L.writeTimeout (actionFrames L a).1.length).1⟩,
+   f.after L.writeTimeout (actionFrames L a).1.length)
 
 /-! ## state -/
 
@@ -174,6 +229,8 @@ structure St where
   opens : List (Nat × Nat) := []
   nextSub : Nat := 0
   nextIn : Nat := 0
+  /-- inbound substreams on which the remote has written only the beginning of a frame -/
+  held : List Nat := []
   deriving Repr
 
 /-- What one operation makes visible. -/
@@ -233,7 +290,7 @@ def enqueue (st : St) (p : Nat) (a : Action) : St × Out :=
   | some (x :: xs) => ({ st with pendingOutbound := ainsert p ((x :: xs) ++ [a]) st.pendingOutbound }, {})
   | _ => openSubstreamOrDial { st with pendingOutbound := ainsert p [a] st.pendingOutbound } p
 
-def St.far (st : St) (s : Nat) : Far := (alookup s st.fars).getD ⟨none, 0, true⟩
+def St.far (st : St) (s : Nat) : Far := (alookup s st.fars).getD ⟨none, 0, true, []⟩
 
 def St.setFar (st : St) (s : Nat) (f : Far) : St := { st with fars := ainsert s f st.fars }
 
@@ -327,14 +384,20 @@ inductive Op where
   | conndead (p : Nat)
   | dialfail (p : Nat)
   | view (p : Nat) (v : View)
-  | subopen (s : Nat) (budget : Option Nat) (off : Nat)
+  | subopen (s : Nat) (budget : Option Nat) (off : Nat) (delays : List Nat)
   | subfail (s : Nat)
-  | plan (s : Nat) (budget : Option Nat) (off : Nat)
+  | plan (s : Nat) (budget : Option Nat) (off : Nat) (delays : List Nat)
   | command (p : Nat) (a : Action)
   | insub (p : Nat)
-  /-- a message arrived on inbound substream `k`; `decodes`: prost accepted it -/
+  /-- a message arrived on inbound substream `k` (in one piece or in pieces, however slowly: reads
+  have no timeout); `decodes`: prost accepted it (`false` also stands for a length prefix above the
+  codec's limit: the stream fails) -/
   | inmsg (k : Nat) (decodes : Bool)
-  /-- inbound substream `k` ended (clean close, reset, oversized length prefix) -/
+  /-- only the beginning of a frame arrived on inbound substream `k` -/
+  | inhold (k : Nat)
+  /-- … and now the rest of it -/
+  | inrest (k : Nat) (decodes : Bool)
+  /-- inbound substream `k` ended (clean close, reset) -/
   | inend (k : Nat)
   deriving Repr
 
@@ -367,20 +430,20 @@ def step (L : Limits) (st : St) : Op → St × Res × Out
       | some _ => st
       | none => { st with views := ainsert p .disconnected st.views }) p, .ok, {})
   | .view p v => ({ st with views := ainsert p v st.views }, .ok, {})
-  | .subopen s budget off =>
+  | .subopen s budget off delays =>
     match alookup s st.opens with
     | none => (st, .none, {})
     | some p =>
-      ((onOutboundSubstream L { st with opens := aerase s st.opens } p s ⟨budget, off, false⟩).1, .ok,
-       (onOutboundSubstream L { st with opens := aerase s st.opens } p s ⟨budget, off, false⟩).2)
+      ((onOutboundSubstream L { st with opens := aerase s st.opens } p s ⟨budget, off, false, delays⟩).1, .ok,
+       (onOutboundSubstream L { st with opens := aerase s st.opens } p s ⟨budget, off, false, delays⟩).2)
   | .subfail s =>
     match alookup s st.opens with
     | none => (st, .none, {})
     | some _ => (onSubstreamOpenFailure { st with opens := aerase s st.opens } s, .ok, {})
-  | .plan s budget off =>
+  | .plan s budget off delays =>
     match alookup s st.fars with
     | none => (st, .none, {})
-    | some f => if f.gone then (st, .none, {}) else (st.setFar s ⟨budget, off, false⟩, .ok, {})
+    | some f => if f.gone then (st, .none, {}) else (st.setFar s ⟨budget, off, false, delays⟩, .ok, {})
   | .command p a => ((onCommand L st p a).1, .ok, (onCommand L st p a).2)
   | .insub p =>
     match alookup p st.conns with
@@ -389,11 +452,26 @@ def step (L : Limits) (st : St) : Op → St × Res × Out
   | .inmsg k decodes =>
     match st.inboundOwner k with
     | none => (st, .none, {})
-    | some p => if decodes then (st, .ok, {}) else ({ st with inbound := aerase p st.inbound }, .ok, {})
+    | some p =>
+      -- (the harness does not start a frame inside a held one)
+      if st.held.contains k then (st, .none, {})
+      else if decodes then (st, .ok, {}) else ({ st with inbound := aerase p st.inbound }, .ok, {})
+  | .inhold k =>
+    match st.inboundOwner k with
+    | none => (st, .none, {})
+    | some _ => if st.held.contains k then (st, .none, {}) else ({ st with held := k :: st.held }, .ok, {})
+  | .inrest k decodes =>
+    match st.inboundOwner k with
+    | none => (st, .none, {})
+    | some p =>
+      if st.held.contains k then
+        if decodes then ({ st with held := st.held.filter (· != k) }, .ok, {})
+        else ({ st with held := st.held.filter (· != k), inbound := aerase p st.inbound }, .ok, {})
+      else (st, .none, {})
   | .inend k =>
     match st.inboundOwner k with
     | none => (st, .none, {})
-    | some p => ({ st with inbound := aerase p st.inbound }, .ok, {})
+    | some p => ({ st with inbound := aerase p st.inbound, held := st.held.filter (· != k) }, .ok, {})
 
 /-- A history: the state after it and every call of `send_request` / `send_response` made. -/
 def run (L : Limits) : St → List Op → St × List Attempt
